@@ -14,51 +14,50 @@ package server
 //@ spec func bname(d string) string = sreplaceall(d, ":", "-")
 //@ spec func blobpath(d string) string = fpjoin3(envconfig.Models(), "blobs", bname(d))
 
+// blobName is the code's bname.
+//@ func blobName
+//@   pure reads none
+//@   ensures result == bname(digest)
+
 // Ghost code of Layer.Remove: ghost_hit == 1 iff a manifest yielded so far by the range over the
 // scan result (including the one of the current iteration: the assignment sits at the top of the
-// loop body, before the inner loop) has a layer or config whose digest STRING equals l.Digest;
-// ghost_phit is the same over blob NAMES (bname(digest) equal: the two name one file).
+// loop body, before the inner loop) has a layer or config whose digest names the same blob file
+// as l.Digest (equal blob names).
 //@ func (*Layer).Remove
 //@   ghost-at after call Manifests #1 : ghost_hit := 0
-//@   ghost-at after call Manifests #1 : ghost_phit := 0
 //@   assume-at call append #1 : fresh(m) && (cap(m.Layers) == 0 || fresh(m.Layers))   -- the scan result is parsed from disk into new objects by Manifests -> ParseNamedManifest (json.Decode into a new Manifest): it shares no memory with *l
-//@   ghost-at call append #1 : ghost_hit := ite(ghost_hit == 1 || m.Config.Digest == l.Digest || (exists j int :: 0 <= j && j < len(m.Layers) && m.Layers[j].Digest == l.Digest), 1, 0)
-//@   ghost-at call append #1 : ghost_phit := ite(ghost_phit == 1 || bname(m.Config.Digest) == bname(l.Digest) || (exists j int :: 0 <= j && j < len(m.Layers) && bname(m.Layers[j].Digest) == bname(l.Digest)), 1, 0)
+//@   ghost-at call append #1 : ghost_hit := ite(ghost_hit == 1 || bname(m.Config.Digest) == bname(l.Digest) || (exists j int :: 0 <= j && j < len(m.Layers) && bname(m.Layers[j].Digest) == bname(l.Digest)), 1, 0)
 //@   assume-at call GetBlobsPath : ErrInvalidDigestFormat != nil   -- package-level errors.New value, assigned once at package init, never reassigned
-//@   loop 1 invariant ghost_hit == 0
-//@   loop 1 invariant ghost_phit == 0
-//@   loop 2 invariant ghost_hit == 1 ==> m.Config.Digest == l.Digest || (exists j int :: 0 <= j && j < len(m.Layers) && m.Layers[j].Digest == l.Digest)
-//@   loop 2 invariant m.Config.Digest == l.Digest || (exists j int :: 0 <= j && j < len(m.Layers) && m.Layers[j].Digest == l.Digest) ==> ghost_hit == 1
-//@   loop 2 invariant forall j int :: 0 <= j && j <= rangeindex && j < len(m.Layers) ==> m.Layers[j].Digest != l.Digest
-//@   loop 2 invariant rangeindex >= len(m.Layers) ==> m.Config.Digest != l.Digest
+//@   loop 1 invariant ghost_hit == 0 && name == bname(l.Digest)
+//@   loop 2 invariant name == bname(l.Digest)
+//@   loop 2 invariant ghost_hit == 1 ==> bname(m.Config.Digest) == bname(l.Digest) || (exists j int :: 0 <= j && j < len(m.Layers) && bname(m.Layers[j].Digest) == bname(l.Digest))
+//@   loop 2 invariant bname(m.Config.Digest) == bname(l.Digest) || (exists j int :: 0 <= j && j < len(m.Layers) && bname(m.Layers[j].Digest) == bname(l.Digest)) ==> ghost_hit == 1
+//@   loop 2 invariant forall j int :: 0 <= j && j <= rangeindex && j < len(m.Layers) ==> bname(m.Layers[j].Digest) != bname(l.Digest)
+//@   loop 2 invariant rangeindex >= len(m.Layers) ==> bname(m.Config.Digest) != bname(l.Digest)
 //@   assert-at call os.Remove #1 : ghost_hit == 0
 //@   assert-at call os.Remove #1 : arg0 == blobpath(l.Digest)
-//@   assert-at call os.Remove #1 : ghost_phit == 0
 
 // deleteUnusedLayers: witd() is an arbitrary fixed digest string (uninterpreted constant: what is
 // proved about it holds for every digest). ghost_ref == 1 iff a manifest of the scan whose loop
-// iteration has reached its last statement has a layer or config whose digest STRING is witd();
-// ghost_pref the same over blob NAMES. Loops: 1 manifests of the scan  2 its layers  3 keys left.
+// iteration has reached its last statement has a layer or config whose digest names the same blob
+// file as witd(). Loops: 1 manifests of the scan  2 its layers  3 keys of deleteMap.
 //@ spec func witd() string
 //@ func deleteUnusedLayers
 //@   assume-at call GetBlobsPath : ErrInvalidDigestFormat != nil   -- package-level errors.New value, assigned once at package init, never reassigned
 //@   ghost-at after call Manifests #1 : ghost_ref := 0
-//@   ghost-at after call Manifests #1 : ghost_pref := 0
-//@   ghost-at call delete #2 : ghost_ref := ite(ghost_ref == 1 || manifest.Config.Digest == witd() || (exists j int :: 0 <= j && j < len(manifest.Layers) && manifest.Layers[j].Digest == witd()), 1, 0)
-//@   ghost-at call delete #2 : ghost_pref := ite(ghost_pref == 1 || bname(manifest.Config.Digest) == bname(witd()) || (exists j int :: 0 <= j && j < len(manifest.Layers) && bname(manifest.Layers[j].Digest) == bname(witd())), 1, 0)
-//@   loop 1 invariant ghost_ref == 1 ==> !has(deleteMap, witd())
-//@   loop 1 invariant forall s string :: has(deleteMap, s) ==> old(has(deleteMap, s))
-//@   loop 1 invariant ghost_pref == 1 ==> forall s string :: has(deleteMap, s) ==> bname(s) != bname(witd())
-//@   loop 2 invariant ghost_ref == 1 ==> !has(deleteMap, witd())
-//@   loop 2 invariant forall s string :: has(deleteMap, s) ==> old(has(deleteMap, s))
-//@   loop 2 invariant forall j int :: 0 <= j && j <= rangeindex ==> !has(deleteMap, manifest.Layers[j].Digest)
-//@   loop 3 invariant ghost_ref == 1 ==> !has(deleteMap, witd())
+//@   ghost-at call blobName #2 : ghost_ref := ite(ghost_ref == 1 || bname(manifest.Config.Digest) == bname(witd()) || (exists j int :: 0 <= j && j < len(manifest.Layers) && bname(manifest.Layers[j].Digest) == bname(witd())), 1, 0)
+//@   loop 1 invariant fresh(used) && used != nil
+//@   loop 1 invariant ghost_ref == 1 ==> has(used, bname(witd()))
+//@   loop 1 invariant forall s string :: has(deleteMap, s) <==> old(has(deleteMap, s))
+//@   loop 2 invariant fresh(used) && used != nil
+//@   loop 2 invariant ghost_ref == 1 ==> has(used, bname(witd()))
+//@   loop 2 invariant forall s string :: has(deleteMap, s) <==> old(has(deleteMap, s))
+//@   loop 2 invariant forall j int :: 0 <= j && j <= rangeindex ==> has(used, bname(manifest.Layers[j].Digest))
+//@   loop 3 invariant ghost_ref == 1 ==> has(used, bname(witd()))
 //@   loop 3 invariant forall s string :: has(deleteMap, s) ==> old(has(deleteMap, s))
-//@   loop 3 invariant ghost_pref == 1 ==> forall s string :: has(deleteMap, s) ==> bname(s) != bname(witd())
 //@   assert-at call os.Remove #1 : old(has(deleteMap, k))
-//@   assert-at call os.Remove #1 : ghost_ref == 1 ==> k != witd()
 //@   assert-at call os.Remove #1 : arg0 == blobpath(k)
-//@   assert-at call os.Remove #1 : ghost_pref == 1 ==> bname(k) != bname(witd())
+//@   assert-at call os.Remove #1 : ghost_ref == 1 ==> bname(k) != bname(witd())
 
 // ---- (3) CASE-INSENSITIVE CANONICALISATION ---------------------------------------------------
 // strings.EqualFold(s, t) <==> sfoldeq(s, t) (trusted, types/model block); simple case folding
@@ -89,8 +88,10 @@ package server
 //@   assume-at entry : forall s string, t string, u string :: sfoldeq(s, t) && sfoldeq(t, u) ==> sfoldeq(s, u)    -- transitive
 //@   ghost-at entry : ghost_wseen := 0
 //@   ghost-at call EqualFold #1 : ghost_wseen := ite(ghost_wseen == 1 || (e.Host == wxh() && e.Namespace == wxn() && e.Model == wxm() && e.Tag == wxt()), 1, 0)
-//@   loop 1 invariant sfoldeq(n.Host, rqh()) && sfoldeq(n.Namespace, rqn()) && sfoldeq(n.Model, rqm()) && sfoldeq(n.Tag, rqt())
-//@   loop 1 invariant ghost_wseen == 1 && sfoldeq(wxh(), n.Host) && sfoldeq(wxn(), n.Namespace) && sfoldeq(wxm(), n.Model) && sfoldeq(wxt(), n.Tag) ==> wxh() == n.Host && wxn() == n.Namespace && wxm() == n.Model && wxt() == n.Tag
+//@   loop 1 invariant n.Host == rqh() && n.Namespace == rqn() && n.Model == rqm() && n.Tag == rqt()
+//@   loop 1 invariant ghost_wseen == 1 ==> !(sfoldeq(wxh(), rqh()) && sfoldeq(wxn(), rqn()) && sfoldeq(wxm(), rqm()) && sfoldeq(wxt(), rqt()))
+//@   loop 2 invariant sfoldeq(n.Host, rqh()) && sfoldeq(n.Namespace, rqn()) && sfoldeq(n.Model, rqm()) && sfoldeq(n.Tag, rqt())
+//@   loop 2 invariant ghost_wseen == 1 ==> !(sfoldeq(wxh(), rqh()) && sfoldeq(wxn(), rqn()) && sfoldeq(wxm(), rqm()) && sfoldeq(wxt(), rqt()))
 //@   ensures result.1 == nil ==> sfoldeq(result.0.Host, n.Host) && sfoldeq(result.0.Namespace, n.Namespace) && sfoldeq(result.0.Model, n.Model) && sfoldeq(result.0.Tag, n.Tag)
 //@   ensures result.1 == nil && ghost_wseen == 1 && sfoldeq(wxh(), result.0.Host) && sfoldeq(wxn(), result.0.Namespace) && sfoldeq(wxm(), result.0.Model) && sfoldeq(wxt(), result.0.Tag) ==> wxh() == result.0.Host && wxn() == result.0.Namespace && wxm() == result.0.Model && wxt() == result.0.Tag
 
